@@ -542,7 +542,7 @@ func main() {
 	o.ShardSize = 120 // plugin cases are big terms: smaller shards evaluate in parallel
 	o.DeclareSuite("seq", "From Verif Require Import C10.Model.", "case", "run_case")
 	o.DeclareSuite("forced", "From Verif Require Import C10.Model.", "case", "run_case")
-	o.DeclareSuite("plugin", "From Verif Require Import C10.Model C10.Plugin.", "case_plugin", "run_plugin")
+	o.DeclareSuite("plugin", "From Verif Require Import C10.Model C10.Plugin C10.Scrape.", "case_mplugin", "run_mplugin")
 	o.DeclareSuite("atomic", "From Verif Require Import C10.Model C10.Split.", "case_atomic", "run_atomic")
 	o.DeclareSuite("timer", "From Verif Require Import C10.Model.", "case_timer", "run_timer")
 	o.Rule("seq: random sequential mock-clock histories (quota 1-3, queue size 1-4, windows 1 us/250 ms/1 s, " +
@@ -557,6 +557,9 @@ func main() {
 		"parameters, a remedy without configuration): online histories with bursts, clock advances to boundary-1/boundary/" +
 		"boundary+1 and TTL deadline +-1, and forced interleavings in which the first request of a remedy is held inside " +
 		"the queue factory while others arrive (every order of build/enqueue steps for 2-3 first requests, plus random ones); " +
+		"two thirds of the random plugin histories contain metrics reads (the plugin's requests_in_queue gauge callback, registered " +
+		"through a recording meter, run at arbitrary points: between the arrivals of a burst, while waiters are parked, around " +
+		"roll-over passes and TTL expiries), plus 128 scripted histories with a read at every subset of six positions; " +
 		"timer: every third seq/forced history with a roll-over pass again, observable = the deadline of the timer the " +
 		"roll-over goroutine re-arms after each pass (model: next_tick = window end after the Tick); " +
 		"non-trivial (plugin) = somebody waited, somebody was released by a roll-over and somebody was refused, or a " +
@@ -605,6 +608,7 @@ func main() {
 		}
 	})
 	scriptedPlugin(o, o.Scale(2, 3, 3))
+	scriptedScrapes(o)
 	for i, n := 0, o.Scale(700, 8000, 5000); i < n && !enough(); i++ {
 		recordP(o, genPluginSeq(o))
 	}
